@@ -499,6 +499,24 @@ Definition get_graphql_schema_settings (e : env) (cfg : json) : res gsettings :=
   | Ill => Ill
   end.
 
+(* ---------- the checks as one list, in the order in which the code performs them ---------- *)
+Definition headers_err (e : env) (h : list (string * string)) : option err :=
+  match resolve_headers e h with Err x => Some x | _ => None end.
+Definition base_checks (e : env) (b : braw) : list (option err) :=
+  [ (if String.eqb (b_schema_path b) "" && String.eqb (b_url b) ""
+     then Some (mkerr InvalidConfiguration msg_no_source) else None);
+    (if String.eqb (b_schema_path b) "" then None else assert_path_exists e (b_schema_path b));
+    headers_err e (b_headers b) ].
+Definition client_checks (e : env) (r : craw) : list (option err) :=
+  [ (if String.eqb (r_queries_path r) "" && negb (b_custom_ops (r_base r))
+     then Some (mkerr MissingConfiguration msg_missing_fields) else None) ]
+  ++ base_checks e (r_base r)
+  ++ [ (if valid_comment (r_comments r) then None
+        else Some (mkerr InvalidConfiguration (msg_comments (r_comments r)))) ]
+  ++ client_asserts e r.
+Definition schema_checks (e : env) (r : graw) : list (option err) :=
+  base_checks e (gr_base r) ++ schema_asserts r.
+
 (* ---------- the configuration object as a store: what the call leaves behind ----------
    get_client_settings works on `section = get_section(config_dict).copy()` and then ASSIGNS
    section["scalars"] (always) and section["include_comments"] (when boolean).  [copy] says whether the
@@ -574,7 +592,7 @@ Definition client_constraints (strict : bool) (e : env) (r : craw) : list (strin
     ("client-file-name", name_ok strict (r_client_file r));
     ("base-client-name", name_ok strict bn);
     ("base-client-file", p_is_file e bp);
-    ("base-client-class", class_defined e bp bn);
+    ("base-client-class", negb (p_is_file e bp) || class_defined e bp bn);
     ("enums-module-name", name_ok strict (r_enums r));
     ("input-types-module-name", name_ok strict (r_inputs r));
     ("fragments-module-name", if strict then usable_name (r_fragments r) else true);
